@@ -183,6 +183,20 @@ func ruleT1(c *Ctx) {
 						ok = false
 						detail = fmt.Sprintf("separator %q written by Triple.String is matched by none of the split patterns %q", sep, pats)
 					}
+					// ... and the separator is required: a pattern that also matches the two delimiters with nothing
+					// between them finds a "split point" inside an id such as a[0]/b or x>"y
+					for _, p := range pats {
+						re, err := regexp.Compile(p)
+						if err != nil {
+							continue
+						}
+						for _, probe := range []string{">\"", "]/", "]\""} {
+							if re.MatchString(probe) {
+								ok = false
+								detail = fmt.Sprintf("split pattern %q matches %q, i.e. without the separator %q that Triple.String writes: ids containing that pair of characters are split in the wrong place", p, probe, sep)
+							}
+						}
+					}
 				}
 			}
 		}
